@@ -6,7 +6,7 @@ ASSUME = [
     'real StackAllocator over a buffer whose capacity (0..needed) is symbolic',
     'rejection loops are memoryless (an iteration reads nothing an earlier one wrote except the engine) and are followed for 3 iterations; deeper paths are outside '
     'the bound (counted in the evidence)',
-    'covered models: Klein-Nishina, e+ annihilation (EPlusGG), and the shared ionisation final-state helper (not the Moller/Bhabha/MuHad energy samplers).  NOT covered: Livermore PE / relaxation, Rayleigh, Bethe-Heitler, Moller-Bhabha, Seltzer-Berger, '
+    'covered models: Klein-Nishina, e+ annihilation (EPlusGG), the shared ionisation final-state helper, and the Moller / Bhabha / Bethe-Bloch / Bragg energy samplers (MuBB thorough only).  NOT covered: Livermore PE / relaxation, Rayleigh, Bethe-Heitler, Moller-Bhabha, Seltzer-Berger, '
     'relativistic/combined brems, Coulomb/Wentzel, muon/hadron ionisation and bremsstrahlung, neutron elastic; momentum balance of Klein-Nishina and unit-norm directions',
     'energy ranges "photon energy in (0,E]" need transcendental bounds and are only attempted in the thorough tier (may stay undecided)',
 ]
@@ -29,6 +29,12 @@ OBLS = [
         bounds='rejection loop <= 3 iterations', **O),
     Obl('C04.MB/bhabha', 'C04/ioni.cc', 'obl_c04_bhabha_fraction', 'B', 'BhabhaEnergyDistribution: sampled fraction in [cutoff/T, 1] for every draw', timeout=60,
         bounds='rejection loop <= 3 iterations', **O),
+    Obl('C04.MUHAD/bethebloch', 'C04/muhad.cc', 'obl_c04_bethebloch_range', 'B', 'BetheBlochEnergyDistribution: threshold = cut, max = W_max(T, M), sample in between '
+        '(every projectile mass > m_e)', timeout=60, bounds='rejection loop <= 3 iterations', **O),
+    Obl('C04.MUHAD/bragg', 'C04/muhad.cc', 'obl_c04_bragg_range', 'B', 'BraggICRU73QOEnergyDistribution: threshold <= cut, max = W_max, sample in between', timeout=60,
+        bounds='rejection loop <= 3 iterations', **O),
+    Obl('C04.MUHAD/mubb', 'C04/muhad.cc', 'obl_c04_mubb_range', 'B', 'MuBBEnergyDistribution: threshold = cut, max = W_max, sample in between (radiative-correction paths with log terms: '
+        'undecided in the quick budget)', timeout=300, tier='thorough', bounds='rejection loop <= 3 iterations', **O),
     Obl('C04.KN+', H, 'obl_c04_klein_nishina', 'B', 'KleinNishina: additionally outgoing photon energy in (0,E], non-negative energies', timeout=900, tier='thorough',
         defines=('VERIF_POSITIVITY',), **O),
     Obl('C04.EPGG+', H, 'obl_c04_eplusgg', 'B', 'EPlusGG: additionally both photon energies positive', timeout=900, tier='thorough', defines=('VERIF_POSITIVITY',), **O),
